@@ -166,7 +166,7 @@ func c18BuildPool(ctx *Ctx, t *tape.Tape) *c18Pool {
 		p.pals = append(p.pals, pal)
 	}
 	for i := 0; i < 2; i++ {
-		p.progs = append(p.progs, world.GenProgram(t, world.GenCfg{MaxItems: 5, Abstract: true, EncOnly: true, ForceReset: true}))
+		p.progs = append(p.progs, world.GenProgram(t, world.GenCfg{MaxItems: 5, Abstract: true, EncOnly: true, ForceReset: true, WildStops: true}))
 	}
 	p.cregs = world.GenPalette(t)
 	p.cregs[t.Intn(64)] = color.RGBA{uint8(t.Intn(256)), uint8(t.Intn(256)), uint8(t.Intn(256)), 0}
@@ -532,6 +532,11 @@ func c18Run(ctx *Ctx, t *tape.Tape) *report.Violation {
 			st.Add("policy_pct", 1)
 		} else {
 			st.Add("policy_chaos", 1)
+		}
+		if stt.Steps == 0 {
+			// fallback build without statement yields: tasks ran atomically; what
+			// is distinct is the task set over the shared inputs
+			st.Distinct(fnv([]byte(strings.Join(describe(), "|"))))
 		}
 		if stt.Overlaps > 0 {
 			st.Distinct(stt.Hash)
